@@ -98,6 +98,20 @@ impl Profile {
 }
 
 pub fn alphabet(rng: &mut Rng, letters_only: bool) -> Vec<u8> {
+    // One alphabet in ten: an edge of a letter range together with both of its
+    // byte neighbours, in any order (what is learnt about a byte's neighbours
+    // must not stand in for the byte itself - case folding, byte classes).
+    if !letters_only && rng.chance(1, 10) {
+        let mut a = rng.pick(&[[b'`', b'a', b'b'], [b'y', b'z', b'{'], [b'@', b'A', b'B'], [b'Y', b'Z', b'[']]).to_vec();
+        rng.shuffle(&mut a);
+        if rng.chance(1, 2) {
+            let b = *rng.pick(&POOL);
+            if !a.contains(&b) {
+                a.push(b);
+            }
+        }
+        return a;
+    }
     let n = rng.range(2, 5);
     let mut a = vec![];
     while a.len() < n {
